@@ -13,6 +13,14 @@ Kernels (DESIGN.md section 4, C14):
   K4  wrappers through the REAL string-matcher parser: M, `( M && M )`, `-transformed-by identity M`
       give the same verdict.
 
+  K6  transformers whose output lines are NOT in 1-1 correspondence with the lines of their model (`replace`
+      whose replacement string inserts any number of new-lines anywhere, or that deletes / multiplies the
+      new-lines; with -preserve-new-lines; limited to one line by -at; under a cache; after another such
+      transformer; followed by consumers that depend on the division into lines: `filter line-num == 2`,
+      `strip -trailing-new-lines`, `filter`, `num-lines`): every access route delivers the text the
+      documentation of the transformers denotes, and as_lines delivers exactly the lines of that text.
+      Text and REPLACEMENT STRING symbolic.
+
 The OS side (text files, io.StringIO, os.fstat, filecmp) is replaced by the documented-contract
 stand-ins of harness/_C14_fakefs.py (self-tested against real files).
 """
@@ -189,8 +197,9 @@ LAYER_TEXT = {
 # PATTERN is a literal string over {a, b, new-line} that contains a new-line as its last character or not at all;
 # REPLACEMENT is a string over {x, new-line}.
 
-def replace_layer(pat: str, preserve: bool, repl: str):
-    return ('replace', pat, preserve, repl)
+def replace_layer(pat: str, preserve: bool, repl: str, at=None):
+    """at: None, or the number of the only line the replacement is limited to (-at line-num == AT)"""
+    return ('replace', pat, preserve, repl, at)
 
 
 def _quoted(s: str) -> str:
@@ -202,9 +211,10 @@ def _quoted(s: str) -> str:
 def replace_source_text(layer, via_symbol: bool = True) -> str:
     """The source text of the transformer.  The replacement string is given as a reference to the string symbol R
     (whose value then holds real new-line characters); or (self-test) literally, with new-lines as \\n escapes."""
-    _, pat, preserve, repl = layer
-    return 'replace %s%s %s' % ('-preserve-new-lines ' if preserve else '', _quoted(pat),
-                                '@[R]@' if via_symbol else _quoted(repl))
+    _, pat, preserve, repl, at = layer
+    return 'replace %s%s%s %s' % (('-at line-num == %d ' % at) if at is not None else '',
+                                  '-preserve-new-lines ' if preserve else '', _quoted(pat),
+                                  '@[R]@' if via_symbol else _quoted(repl))
 
 
 def _subst_literal(part: str, pat: str, repl: str) -> str:
@@ -222,13 +232,19 @@ def _subst_literal(part: str, pat: str, repl: str) -> str:
     return out
 
 
-def ref_replace(text: str, pat: str, preserve: bool, repl: str) -> str:
+def ref_replace(text: str, pat: str, preserve: bool, repl: str, at=None) -> str:
     """The documentation of `replace`: "Replaces every string matching REGEX (on a single line) with STRING.  Every
     line ends with \\n, except the last line, which may or may not [...].  If -preserve-new-lines is given, this \\n
-    is excluded from the replacement."  The result is a TEXT; nothing is said (or needed) about how it is divided."""
+    is excluded from the replacement."  "-at LINE-MATCHER: Limits replacement to lines matching LINE-MATCHER" (line
+    numbers are those of the model, starting at 1).
+    The result is a TEXT; nothing is said (or needed) about how it is divided."""
     out = ''
+    num = 0
     for line in ref_lines(text):
-        if preserve and line[-1] == '\n':
+        num += 1
+        if at is not None and num != at:
+            out = out + line
+        elif preserve and line[-1] == '\n':
             out = out + _subst_literal(line[:-1], pat, repl) + '\n'
         else:
             out = out + _subst_literal(line, pat, repl)
@@ -238,7 +254,7 @@ def ref_replace(text: str, pat: str, preserve: bool, repl: str) -> str:
 def denoted_by_layer(layer, text: str) -> str:
     """The text a layer makes of its model's text (independent statement of what the layer is documented to do)."""
     if isinstance(layer, tuple):
-        return ref_replace(text, layer[1], layer[2], layer[3])
+        return ref_replace(text, layer[1], layer[2], layer[3], layer[4])
     if layer == 'fdwriter':
         # the text of program output is what reading the file it was written to gives
         return ffs.universal_newlines(text)
@@ -767,74 +783,118 @@ REAL_K6 = (
 ) + REAL_K2
 
 STUB_RE = ('none for the regular expression: re.Pattern.sub runs on the symbolic line through CrossHair\'s model of `re` '
-           '(concrete pattern, concrete replacement string)')
+           '(concrete pattern; the replacement string is symbolic and made concrete, one path per value, before it is used)')
 
 
-def k6_replacement(n1: int, x: int, n2: int) -> str:
-    """n1 new-lines, x times the character x, n2 new-lines."""
-    return '\n' * n1 + 'x' * x + '\n' * n2
+def _concrete_str(r: str, alphabet: str) -> str:
+    """r as a concrete str (the comparisons fork the path per character; cf. ob.concrete_int)."""
+    out = ''
+    for ch in r:
+        for a in alphabet:
+            if ch == a:
+                out = out + a
+                break
+        else:
+            raise ValueError('not in alphabet')
+    return out
 
 
-def _pre_k6(s: str, m: int, n1: int, x: int, n2: int, k: int) -> bool:
+def _pre_k6(s: str, r: str, m: int, k: int) -> bool:
     c = ob.case()
     if m < 1:
         return False
-    if len(s) > c['maxlen'] or not in_alphabet(s, c['alphabet']):
+    if 'mmax' in c and m > c['mmax']:
         return False
-    if not (0 <= n1 and 0 <= n2 and n1 + n2 <= c['nmax'] and 0 <= x <= c['xmax']):
+    if len(s) > c['maxlen'] or not in_alphabet(s, ALPHA_K6):
         return False
-    if x == 0 and n2 != 0:
-        return False  # the same replacement string as (n1 + n2, 0, 0)
-    if 'matcher' not in c and k != 0:
+    if len(r) > c['rmaxlen'] or not in_alphabet(r, ALPHA_REPL):
+        return False
+    if not (c.get('wrappers') and not c.get('native')) and k != 0:
         return False
     return True
 
 
-def k6_spec(c, repl: str):
-    return (c['root'],) + tuple(c.get('before', ())) + (replace_layer(c['pat'], c['preserve'], repl),) + \
-        tuple(c.get('after', ()))
+def k6_spec(c, root, before, after, repl: str):
+    return (root,) + tuple(before) + (replace_layer(c['pat'], c['preserve'], repl, c.get('at')),) + tuple(after)
 
 
-def k6_reshape(s: str, m: int, n1: int, x: int, n2: int, k: int) -> bool:
-    """
-    pre: _pre_k6(s, m, n1, x, n2, k)
-    post: _
-    """
-    c = ob.case()
-    # the replacement string goes through the real parser as concrete source text
-    n1 = ob.concrete_int(n1, 0, c['nmax'])
-    x = ob.concrete_int(x, 0, c['xmax'])
-    n2 = ob.concrete_int(n2, 0, c['nmax'])
-    spec = k6_spec(c, k6_replacement(n1, x, n2))
+def _k6_accesses(spec, seq, s: str, m: int, oracle_bug) -> bool:
+    """Every access of the sequence delivers the denoted text / exactly the lines of the denoted text."""
     fs = ffs.FakeFs()
     tfs = ffs.FakeDirFileSpace(fs)
     ffs.install(fs)
-    ok = True
-    if c['seq']:
-        src, text = build_source(spec, fs, tfs, (s,), m)
-        lines = ref_lines(text)
-        if c.get('oracle_bug'):
-            # seeded oracle error: "a transformed text has one line per line of its model"
-            lines = lines[:len(ref_lines(s))]
-        for acc in c['seq']:
-            if not _observe(src, acc, text, lines, None):
-                ok = False
-                break
-    if ok and 'matcher' in c:
-        from vsym import xly
-        xly.install_int_placeholders([k])
-        n = 0
-        for w in c['wrappers']:
-            text_w = K4_WRAPPERS[w]
-            text_w = text_w % ((K4_MATCHERS[c['matcher']],) * text_w.count('%s'))
-            n += 1
-            model, text = build_source(spec, fs, tfs, (s,), m, 'm%d-' % n)
-            want = len(ref_lines(text)) == k
-            got = _string_matcher(text_w, tfs, m, '').matches_w_trace(model).value
-            if got != want:
-                ok = False
-                break
-    return ob.post(ok)
+    src, text = build_source(spec, fs, tfs, (s,), m)
+    lines = ref_lines(text)
+    if oracle_bug:
+        # seeded oracle error: "a transformed text has one line per line of its model"
+        lines = lines[:len(ref_lines(s))]
+    for acc in seq:
+        if not _observe(src, acc, text, lines, None):
+            return False
+    return True
+
+
+def _k6_num_lines(spec, wrappers, s: str, m: int, k) -> bool:
+    """`num-lines == K0` (plain and wrapped; each on a fresh source) holds iff the denoted text has K0 lines."""
+    from vsym import xly
+    fs = ffs.FakeFs()
+    tfs = ffs.FakeDirFileSpace(fs)
+    ffs.install(fs)
+    xly.install_int_placeholders([k])
+    n = 0
+    for w in wrappers:
+        text_w = K4_WRAPPERS[w]
+        text_w = text_w % ((K4_MATCHERS['num-lines'],) * text_w.count('%s'))
+        n += 1
+        model, text = build_source(spec, fs, tfs, (s,), m, 'm%d-' % n)
+        want = len(ref_lines(text)) == k
+        got = _string_matcher(text_w, tfs, m, '').matches_w_trace(model).value
+        if got != want:
+            return False
+    return True
+
+
+def _k6_all(c, s: str, r: str, m: int, k) -> bool:
+    """k is None: every K0 from 0 to (number of lines of the text) + 1 is tried."""
+    for root in c['roots']:
+        for before in c['befores']:
+            for after in c['afters']:
+                spec = k6_spec(c, root, before, after, r)
+                for seq in c['seqs']:
+                    if not _k6_accesses(spec, seq, s, m, c.get('oracle_bug')):
+                        return False
+                if c.get('wrappers'):
+                    if k is None:
+                        # (s and r are concrete here)
+                        text = s
+                        for layer in spec[1:]:
+                            text = denoted_by_layer(layer, text)
+                        ks = range(0, len(ref_lines(text)) + 2)
+                    else:
+                        ks = (k,)
+                    for k_i in ks:
+                        if not _k6_num_lines(spec, c['wrappers'], s, m, k_i):
+                            return False
+    return True
+
+
+def k6_reshape(s: str, r: str, m: int, k: int) -> bool:
+    """
+    pre: _pre_k6(s, r, m, k)
+    post: _
+    """
+    c = ob.case()
+    # the replacement string reaches the template of re.Pattern.sub: concrete there
+    r = _concrete_str(r, ALPHA_REPL)
+    if c.get('native'):
+        # text, replacement string and buffer size made concrete (one path per value: the solver's path tree
+        # enumerates them), then the real classes run natively on every source / access sequence of the case
+        s = _concrete_str(s, ALPHA_K6)
+        m = ob.concrete_int(m, 1, c['mmax'])
+        with _C14_chfix.no_tracing():
+            ok = _k6_all(c, s, r, m, None)
+        return ob.post(ok)
+    return ob.post(_k6_all(c, s, r, m, k))
 
 
 # ---------------------------------------------------------------------------------- long concrete texts
@@ -988,7 +1048,8 @@ def _spec_name(spec) -> str:
 
 def _layer_name(layer) -> str:
     if isinstance(layer, tuple):
-        return 'replace%s(%s->%s)' % ('-p' if layer[2] else '', _vis(layer[1]), _vis(layer[3]))
+        return 'replace%s%s(%s->%s)' % ('@%d' % layer[4] if layer[4] is not None else '', '-p' if layer[2] else '',
+                                        _vis(layer[1]), _vis(layer[3]))
     return layer
 
 
@@ -1109,31 +1170,55 @@ def _k4_ob(matcher, spec, wrappers, maxlen, alphabet, timeout, tag='', **extra) 
         entry='parse_string_matcher.parsers().full -> matches_w_trace(model)')
 
 
-def _k6_ob(root, pat, preserve, seq, maxlen, nmax, timeout, before=(), after=(), xmax=1, tag='', **extra) -> Ob:
-    case = dict(root=root, pat=pat, preserve=preserve, seq=seq, maxlen=maxlen, nmax=nmax, xmax=xmax,
-                before=tuple(before), after=tuple(after), alphabet=ALPHA_K6)
+def _k6_ob(pat, preserve, roots, befores, afters, seqs, maxlen, rmaxlen, timeout, wrappers=(), mmax=None, tag='',
+           **extra) -> Ob:
+    """mmax given: the native variant (text, replacement string and buffer size <= mmax made concrete, one path per
+    value, then native execution).  Otherwise everything stays symbolic (every buffer size >= 1, every K0)."""
+    native = mmax is not None
+    case = dict(pat=pat, preserve=preserve, roots=tuple(roots), befores=tuple(tuple(b) for b in befores),
+                afters=tuple(tuple(a) for a in afters), seqs=tuple(seqs), maxlen=maxlen, rmaxlen=rmaxlen,
+                wrappers=tuple(wrappers), native=native)
+    if native:
+        case['mmax'] = mmax
     case.update(extra)
-    chain = '|'.join((root,) + tuple(before) + ('replace%s(%s->R)' % ('-p' if preserve else '', _vis(pat)),) + tuple(after))
-    what = 'access sequence %s (A=as_str L=as_lines W=write_to F=as_file Z=freeze)' % seq if seq else ''
-    if 'matcher' in case:
-        what += '%smatcher `%s` written as %s on a fresh source each' % (
-            '; then ' if seq else '', K4_MATCHERS[case['matcher']],
-            ' / '.join('`%s`' % K4_WRAPPERS[w].replace('%s', 'M') for w in case['wrappers']))
+    at = case.get('at')
+    rep = 'replace%s%s(%s->R)' % ('@%d' % at if at is not None else '', '-p' if preserve else '', _vis(pat))
+
+    def alts(xs):
+        xs = ['|'.join(_layer_name(y) for y in x) if isinstance(x, tuple) else x for x in xs]
+        xs = [x if x else '-' for x in xs]
+        return xs[0] if len(xs) == 1 else '{' + ','.join(xs) + '}'
+
+    chain = '%s|%s%s%s' % (alts(roots), (alts(befores) + '|') if tuple(befores) != ((),) else '', rep,
+                           ('|' + alts(afters)) if tuple(afters) != ((),) else '')
+    what = 'every access sequence in %s (A=as_str L=as_lines W=write_to F=as_file Z=freeze)' % (list(seqs),)
+    if wrappers:
+        what += '; matcher `%s` written as %s on a fresh source each, %s' % (
+            K4_MATCHERS['num-lines'], ' / '.join('`%s`' % K4_WRAPPERS[w].replace('%s', 'M') for w in wrappers),
+            'every K0 from 0 to the number of lines + 1' if native else 'every K0 in Z')
     return Ob(
-        name='K6:%s:%s%s' % (chain, seq if seq else case.get('matcher', ''), tag), fn='k6_reshape', case=case, kernel='K6',
-        bound='source %s where replace = `replace %s%s R` (real parser), R = N1 new-lines + X times "x" + N2 new-lines for '
-              'every N1 + N2 <= %d, X <= %d (symbolic integers); %s; every text of <= %d characters over %s; every memory '
-              'buffer size m >= 1 (Z)%s' % (
-                  chain, '-preserve-new-lines ' if preserve else '', _quoted(pat), nmax, xmax, what, maxlen,
-                  _alpha_name(ALPHA_K6), '; every K0 in Z' if 'matcher' in case else ''),
+        name='K6:%s%s' % (chain, tag), fn='k6_reshape', case=case, kernel='K6', selector=native,
+        bound='%severy source %s where replace = `replace %s%s%s @[R]@` (real parser), R = every replacement string of <= %d '
+              'characters over %s (any number of new-lines, anywhere); %s; every text of <= %d characters over %s; %s' % (
+                  '[selector: text, replacement string and buffer size are made concrete one path per value, then the real '
+                  'classes run natively] ' if native else '',
+                  chain, ('-at line-num == %d ' % at) if at is not None else '',
+                  '-preserve-new-lines ' if preserve else '', _quoted(pat), rmaxlen, _alpha_name(ALPHA_REPL), what,
+                  maxlen, _alpha_name(ALPHA_K6),
+                  ('every memory buffer size m in 1..%d' % mmax) if native else 'every memory buffer size m >= 1 (Z)'),
         timeout=timeout, real=REAL_K6,
-        stubs=STUBS_FS + (STUB_RE,) + ((STUB_INT, STUB_FILECMP) if 'matcher' in case else ()),
-        outside=('regular expressions other than the literal patterns listed; replacement strings with group references',
+        stubs=STUBS_FS + ((STUB_NATIVE,) if native else (STUB_RE,)) + ((STUB_INT, STUB_FILECMP) if wrappers else ()),
+        outside=('regular expressions other than the literal patterns listed; replacement strings with group references '
+                 'or escapes (the replacement is the value of a string symbol holding real new-line characters; the '
+                 'self-test compares with the \\n-escape spelling)',
                  'real files: see K2'),
         entry='parse_string_transformer.parsers().full -> transform(model) -> contents().as_str / as_lines / write_to / as_file')
 
 
+STUB_NATIVE = ('tracing suspended (crosshair.tracers.NoTracing) once text, replacement string and buffer size are concrete: '
+               'the real classes (and the real `re`) run natively on the stand-in file system')
 ALPHA_K6 = 'ab\n'
+ALPHA_REPL = 'x\n'
 
 
 def obligations(tier: str) -> List[Ob]:
@@ -1221,11 +1306,45 @@ def obligations(tier: str) -> List[Ob]:
 
     # ---- K6: transformers that change the number of new-lines of a line
     n6 = 4 if thorough else 3
-    nmax6 = 3 if thorough else 2
+    r6 = 3
     t6 = 3000 if thorough else 300
-    # inserting new-lines (into the first / a middle / the last line: the text is symbolic)
-    obs.append(_k6_ob('str', 'b', False, 'LAWFZLAWF', n6, nmax6, t6))
-    return obs
+    seqs6 = ['LAWFZLAWF', 'ZFLAW']  # as_lines first / as_file first, unfrozen and frozen
+    consumers6 = [(), ('line2',), ('strip-nl',), ('filter',)]
+    w6 = ('plain', 'and')
+    m6 = 3 if thorough else 1
+    # (native variants: one path per text x replacement string x buffer size; all sources / sequences of a case per path)
+    # inserting 0, 1, 2, ... new-lines into the first / a middle / the last line (the text is symbolic); then consumed
+    # as it is or by something whose result depends on the division into lines
+    # (4 characters: a first, a middle and a last line exist)
+    obs.append(_k6_ob('b', False, ['str'], [()], consumers6, seqs6, 5 if thorough else 4, r6, t6, wrappers=w6, mmax=m6))
+    # deleting / replacing / multiplying the new-lines themselves
+    obs.append(_k6_ob('\n', False, ['str', 'file'], [()], consumers6, seqs6, n6, r6, t6, wrappers=w6, mmax=m6))
+    # a pattern that takes the new-line and the character before it
+    obs.append(_k6_ob('b\n', False, ['str'], [()], consumers6, seqs6, n6, 3 if thorough else 2, t6, wrappers=w6, mmax=m6))
+    # -preserve-new-lines: the new-line that ends a line is not part of what is replaced
+    obs.append(_k6_ob('b', True, ['str'], [()], consumers6, seqs6, n6, 3 if thorough else 2, t6, wrappers=w6, mmax=m6))
+    obs.append(_k6_ob('\n', True, ['str'], [()], [(), ('line2',)], seqs6, n6, 2 if thorough else 1, t6, mmax=m6))
+    # limited to one line (the other route into the re-division: lines paired with line-matcher models)
+    obs.append(_k6_ob('b', False, ['str'], [()], [(), ('line2',)], seqs6, n6, 3 if thorough else 2, t6, wrappers=w6,
+                      mmax=m6, at=2))
+    # below a cache / after another transformer of the family (its output lines are the input lines here); buffer sizes
+    obs.append(_k6_ob('b', False, ['str'], [('writer',), (replace_layer('a', False, '\nb'),)], [(), ('filter',)], seqs6,
+                      n6, 3 if thorough else 2, t6, mmax=3 if thorough else 2))
+    # everything symbolic, every buffer size: the re-divided lines under a cache that is frozen
+    if thorough:
+        obs.append(_k6_ob('b', False, ['str'], [()], [('filter',)], ['ZLAF', 'LAZLAF'], 3, 2, 3000))
+        obs.append(_k6_ob('\n', False, ['str'], [('writer',)], [()], ['ZLAF', 'LAZLAF'], 3, 2, 3000))
+    else:
+        obs.append(_k6_ob('b', False, ['str'], [()], [('filter',)], ['LZLAF'], 2, 2, t6))
+    obs.append(_k6_ob('b', False, ['str'], [()], [()], ['LA'], 2, 2, 120, mmax=1, tag=':seeded-oracle-error',
+                      oracle_bug=True))
+    obs[-1].expect = ob.REFUTE
+    obs[-1].bound = 'seeded oracle error: "a transformed text has one line per line of its model" (native variant)'
+    obs.append(_k6_ob('b', False, ['str'], [()], [()], ['LA'], 2, 1, 120, tag=':seeded-oracle-error:symbolic',
+                      oracle_bug=True))
+    obs[-1].expect = ob.REFUTE
+    obs[-1].bound = 'seeded oracle error: "a transformed text has one line per line of its model"'
+
     # ---- K3
     t3 = 2400 if thorough else 300
     e_specs = [('str',), ('file',), ('str', 'writer')]
@@ -1410,6 +1529,40 @@ def selftest(tier) -> int:
                                 spec, seq, parts, m, real, fake))
                         n += 1
                         scratch.remove(rd)
+        # K6: transformers that change the number of new-lines of a line -- (a) real files against the stand-ins;
+        # (b) the replacement string as the value of a string symbol (real new-lines; what the obligations use)
+        # against the same string written literally with \\n escapes (CrossHair's model of re.Match.expand does not
+        # process escapes in the replacement string, which is why the obligations do not use that spelling)
+        k6_texts = ['', 'b', 'ab\nb', 'b\na', '\nb\na', 'a\n\nb\n', 'bb\n\n', 'ab\nab\nab']
+        k6_repls = ['', 'x', '\n', 'x\n', '\n\nx', '\nx\n\n']
+        for pat in ('b', '\n', 'b\n'):
+            for preserve in (False, True):
+                for at in (None, 2):
+                    for repl in k6_repls:
+                        via_symbol = replace_layer(pat, preserve, repl, at)
+                        literal = ('replace-literal',) + via_symbol[1:]
+                        for after in ((), ('line2',), ('strip-nl',)):
+                            for t in k6_texts:
+                                got = _scenario(('str', via_symbol) + after, 'LAWFZLAF', (t, '', ''), 2)
+                                got_literal = _scenario(('str', literal) + after, 'LAWFZLAF', (t, '', ''), 2)
+                                if got != got_literal:
+                                    raise AssertionError('replace: %r %r on %r:\nvia symbol %r\nliteral    %r' % (
+                                        via_symbol, after, t, got, got_literal))
+                                n += 1
+                        if at is None or thorough:
+                            for t in k6_texts[:5]:
+                                for spec in (('file', via_symbol, 'filter'), ('str', 'writer', via_symbol, 'line2')):
+                                    for m in (1, 100):
+                                        k += 1
+                                        rd = os.path.join(d, 'r%d' % k)
+                                        os.mkdir(rd)
+                                        real = _scenario(spec, SEQ_UNFROZEN_THEN_FROZEN, (t, '', ''), m, rd)
+                                        fake = _scenario(spec, SEQ_UNFROZEN_THEN_FROZEN, (t, '', ''), m)
+                                        if real != fake:
+                                            raise AssertionError('real files and stand-ins differ: %r %r m=%r\nreal: %r\nfake: %r' % (
+                                                spec, t, m, real, fake))
+                                        n += 1
+                                        scratch.remove(rd)
         parts_list = [('a', 'b\n'), ('a\n', 'b'), ('', 'a'), ('a', ''), ('é\n', 'a\né'), ('a\x0cb', 'c'), ('a\r', '\nb')]
         for spec in [(('concat', 'str', 'str'),), (('concat', 'str', 'file'),), (('concat', 'file', 'str'), 'filter'),
                      (('concat', 'str', 'prog'),), (('concat', 'prog', 'str'),), (('concat', 'str', 'prog-i'),),
@@ -1474,6 +1627,10 @@ ASSUMPTIONS = [
     '`identity | filter constant true | identity` (parsed by the real parser) and a writer that copies its model: '
     'they stand for "any transformation" only as far as the caching / spooling layer is concerned; what a '
     'transformer does to the text is C05 / C13',
+    'K6: what `replace` does to the CHARACTERS is taken from its documentation for literal patterns (every occurrence of '
+    'the pattern on a line is replaced; -preserve-new-lines excludes the new-line that ends a line; -at limits it to the '
+    'selected lines); the replacement string is the value of a string symbol (real new-line characters), compared by the '
+    'self-test with the same string spelled with \\n escapes',
 ]
 
 OUTSIDE = [
@@ -1483,4 +1640,7 @@ OUTSIDE = [
     'than the two-byte e-acute',
     'access orders other than the listed concrete sequences and (thorough) all orders of three accesses',
     'memory buffer size 0',
+    'K6: patterns other than the literals b, new-line, b + new-line; replacement strings other than those over '
+    '{x, new-line} of the stated length, group references; line selections other than `line-num == 2`; the `run` '
+    'transformer (a program may also change the number of lines: its output is a file, K2 "fdwriter" / K5)',
 ]
